@@ -13,8 +13,15 @@
    What is authenticated is [covered e] = (entry type, certificate or TBS, issuer key hash of a
    precertificate, timestamp, archival flag, leaf index). PreCertificate and ChainFingerprints are
    NOT part of the Merkle leaf and are NOT authenticated by the client: see C12_uncovered_limit. *)
-From SL Require Import Codec.Leaf Merkle.Proofs Merkle.Sound Client.Model Client.Proofs Client.Closed.
+From SL Require Import Codec.Leaf Merkle.Tiles Merkle.Proofs Merkle.Sound
+  Client.Model Client.Reader Client.Proofs Client.Closed.
 Open Scope N_scope.
+
+(* FINDING (see C12_entries_refuted_with_pinned_reader at the end): the tile hash reader that /repo's
+   go.mod pins (golang.org/x/mod v0.37.0) does NOT satisfy [iverifying]; the iterators running on it
+   yield forged entries. C12_entries / C12_all_entries below are therefore theorems about the client on
+   a verifying reader (the x/mod v0.41.0 loop, Client/Reader.v with fixed = true, tied but not proved);
+   C12_entry, C12_inclusion and C12_checkpoint need no such hypothesis and hold of the code as pinned. *)
 
 (* Entries: whatever is served, every yielded (i, e) is in range and agrees with the committed
    leaf i on every Merkle-covered field, for every tree, start offset and archival setting *)
@@ -99,6 +106,27 @@ Theorem C12_reference_reader_verifying : forall served truth LH d p,
 Proof. exact (fun served truth LH d p =>
   ref_reader_verifying ih INode IEmpty ih_eqb ih_eqb_eq served truth LH d p). Qed.
 Print Assumptions C12_reference_reader_verifying.
+
+(* REFUTED for the dependency as pinned by /repo: with the transcription of tlog.TileHashReader of
+   golang.org/x/mod <= v0.37.0 (Client/Reader.v, fixed = false: `for i := len(stx); ...` over
+   de-duplicated tiles) there are a server, a tree head and a committed leaf list such that Entries
+   yields an entry whose covered fields are NOT the committed leaf's (witness: 259 leaves, leaf 5 and
+   slot 5 of the never-authenticated tile/0/000 replaced) *)
+Theorem C12_entries_refuted_with_pinned_reader :
+  exists (data : nat -> N -> N -> option bytes) (htiles : nat -> tcoord -> option (list ih))
+         (n : N) (root : ih) (L : list leaf) (i : N) (e : leaf),
+    icommits n root L /\
+    In (i, e) (fst (ientries (reader_adv ih INode IEmpty ih_eqb false data htiles) false n root 0)) /\
+    exists l, nth_error L (N.to_nat i) = Some l /\ covered e <> covered l.
+Proof. exact c12_entries_refuted_with_pinned_reader. Qed.
+Print Assumptions C12_entries_refuted_with_pinned_reader.
+
+(* so that reader violates the specification, while the corrected loop rejects the same server *)
+Theorem C12_pinned_reader_not_verifying :
+  ~ iverifying (wadv false true) /\
+  ientries (wadv true true) false 259 wroot 0 = ([], Some EHashes).
+Proof. exact (conj pinned_reader_not_verifying w_fixed_rejects). Qed.
+Print Assumptions C12_pinned_reader_not_verifying.
 
 (* the documented limit: the client DOES yield an entry whose PreCertificate / ChainFingerprints
    were replaced by the server; its covered fields are the committed ones *)
